@@ -45,7 +45,22 @@ def hay_to_json(v):
 def hay_from_json(j):
     if j.get("py") == "date":
         return datetime.date.fromisoformat(j["v"])
-    return codec.json_to_plain(j)
+    v = codec.json_to_plain(j)
+    if j.get("wrap"):
+        # the objects ruamel's round-trip loader yields for anchored / quoted scalars
+        from ruamel.yaml.scalarbool import ScalarBoolean
+        from ruamel.yaml.scalarint import ScalarInt
+        from ruamel.yaml.scalarfloat import ScalarFloat
+        from ruamel.yaml.scalarstring import PlainScalarString, SingleQuotedScalarString
+        if isinstance(v, bool):
+            return ScalarBoolean(v, anchor="w")
+        if isinstance(v, int):
+            return ScalarInt(v, anchor="w")
+        if isinstance(v, float):
+            return ScalarFloat(v, width=len(repr(v)), prec=repr(v).find("."), anchor="w")
+        if isinstance(v, str):
+            return SingleQuotedScalarString(v) if j["wrap"] == 2 else PlainScalarString(v, anchor="w")
+    return v
 
 
 def impl_match(method_name, needle, haystack):
@@ -397,6 +412,9 @@ def run(chk: core.Check):
                 [(s, w, dict(c, kind="typed")) for s, w, c in disag], [])
     # (2) the grid
     hj = [hay_to_json(h) for h in HAYSTACKS]
+    # the same values as ruamel wrapper objects (anchored / quoted scalars): same answers expected
+    hj += [dict(j, wrap=(2 if (j["k"] == "str" and i % 2) else 1)) for i, j in enumerate(list(hj))
+           if j["k"] in ("bool", "int", "float", "str")]
     grid = [{"m": m, "h": h, "t": t} for m in cc.METHODS for h in hj for t in NEEDLES]
     for st, viol, disag, samples in core.pmap(match_chunk, core.chunked(grid, 48)):
         _absorb(chk, "grid", st, viol, disag, samples)
